@@ -13,13 +13,29 @@ Scopes (see run()):
   S4  simple graphs on 5 nodes, random asymmetric / duplicated / self-looped / shuffled presentations
   S5  seeded structured graphs on 6..12 nodes (trees, cacti, clique chains, G(n,p), unions + isolated nodes),
       random presentations, random damping / resolution / tolerance
+  S6  size ladder: 11 .. 3000 (thorough: 5000) nodes, families whose cut vertices / bridges / components (and, for
+      disjoint unions, core numbers) are known by construction (oracles/c15_big.py: block trees, bow-ties, flowers,
+      cycle chains, paths, cycles, caterpillars, stars, wheels, prisms, cliques) + sparse G(n, c/n); judged by two
+      independent linear-time oracles (low-point DFS, chain decomposition) and work-list peeling, which are themselves
+      compared with the removal-based brute force on every presentation of S1..S5 and spot-checked on every S6 instance
+  S7  history mode: one node list object and one neighbour callable reused over a sequence of calls (each sequence in
+      one process that starts pristine), the graph edited in place between calls; every answer judged against the
+      oracle for the graph as it is at that call, repeated calls, and calls compared with the same call made alone in
+      a fresh process
+  S8  fine-grained numerics inside the quantifier: damping / tolerance / resolution at dyadic gaps (2^-40 .. 2^-36)
+      around 0, 1/2, 0.85, 1, exact modularity-gain ties, tolerances 0 / 1e-300 / >= 1, max_iter 1..3 and 100/101
 """
 from __future__ import annotations
 
 import itertools
 import math
+import os
+import pickle
 import random
 import signal
+import struct
+import subprocess
+import sys
 from fractions import Fraction
 
 from vf.core import Ctx, use_repo
@@ -32,6 +48,8 @@ FLOAT_SLACK = Fraction(1, 10 ** 13)
 SUM_TOL = Fraction(1, 10 ** 9)
 MOD_TOL = Fraction(1, 10 ** 9)
 CAP = 25  # violations kept per obligation per task (all are counted)
+BIG = 40  # presentations with more nodes than this are judged by the linear-time oracles (oracles/c15_big.py)
+UND = ("articulation_points", "bridges", "kcore_decomposition", "kcore", "louvain")
 
 
 class _Timeout(Exception):
@@ -63,30 +81,108 @@ def _srt(xs):
     return sorted(xs, key=repr)
 
 
+def _diff(got, exp, what):
+    """readable difference of two collections (full for small ones, a summary beyond)."""
+    try:
+        got = set(got)
+    except TypeError:
+        return f"returned {got!r}"
+    if len(got) + len(exp) <= 24:
+        return f"returned {_srt(got)}, {what} gives {_srt(exp)}"
+    miss, extra = exp - got, got - exp
+    what += " (evaluated by the cross-validated linear-time oracle)"
+    return (f"{len(miss)} missing (first: {_srt(miss)[:5]}), {len(extra)} spurious (first: {_srt(extra)[:5]}); "
+            f"{what} gives {len(exp)} elements, {len(got)} were returned")
+
+
+def oracle_und(nodes, nbrs, pre, what):
+    """oracle value `what` in {adj, cut, bridges, core} of the intended undirected graph, cached in `pre`: brute force
+    from the definition up to BIG nodes, the linear-time oracles (cross-validated, see xcheck) beyond."""
+    from oracles import c15_big as B
+    from oracles import c15_graph as O
+    if "adj" not in pre:
+        pre["adj"] = O.closure(nodes, nbrs)
+    if what not in pre:
+        adj = pre["adj"]
+        if len(nodes) <= BIG:
+            pre[what] = {"cut": O.cut_vertices, "bridges": O.bridge_edges, "core": O.core_numbers}[what](adj)
+        elif what == "core":
+            pre["core"] = B.core_numbers_peel(adj)
+        else:
+            pre["cut"], pre["bridges"], pre["comps"] = B.lowpoint(adj)
+    return pre[what]
+
+
+def xcheck(nodes, pre, acc, inst=None, rng=None):
+    """validate the linear-time oracles on this presentation (a disagreement is a checker defect, never a violation):
+    small presentations: against the removal / repeated-deletion brute force; large ones: low-point DFS against chain
+    decomposition, both against the by-construction answer when there is one, and against the removal definition on
+    sampled vertices and edges."""
+    from oracles import c15_big as B
+    from oracles import c15_graph as O
+    adj = pre["adj"]
+    cut, br, comps = B.lowpoint(adj)
+    cut2, br2 = B.chains(adj)
+    core = B.core_numbers_peel(adj)
+    why = []
+    if cut != cut2 or br != br2:
+        why.append("low-point DFS and chain decomposition disagree")
+    if len(nodes) <= BIG:
+        if cut != pre["cut"] or br != pre["bridges"] or comps != O.n_components(adj):
+            why.append("linear-time cut vertices / bridges / components differ from the removal-based brute force")
+        if core != pre["core"]:
+            why.append("work-list core numbers differ from the repeated-scan brute force")
+    else:
+        pre.update(cut=cut, bridges=br, core=core, comps=comps)
+        if comps != B.n_components(adj):
+            why.append("component count")
+        if inst is not None:
+            if inst.get("cut") is not None and (cut != inst["cut"] or br != inst["bridges"] or comps != inst["comps"]):
+                why.append("linear-time oracles differ from the by-construction answer of family " + str(inst.get("family")))
+            if inst.get("core") is not None and core != inst["core"]:
+                why.append("work-list core numbers differ from the by-construction core numbers of family " + str(inst.get("family")))
+        if rng is not None:
+            vs = list(adj)
+            probe = rng.sample(vs, min(6, len(vs))) + rng.sample(_srt(cut), min(4, len(cut)))
+            for v in probe:
+                if (O.n_components(adj, skip_vertex=v) > comps) != (v in cut):
+                    why.append(f"vertex {v!r}: removal definition contradicts the linear oracle")
+            es = [frozenset((v, w)) for v in rng.sample(vs, min(6, len(vs))) for w in list(adj[v])[:1]] + rng.sample(_srt(br), min(4, len(br)))
+            for e in es:
+                e = frozenset(e)
+                if (O.n_components(adj, skip_edge=e) > comps) != (e in br):
+                    why.append(f"edge {_srt(e)}: removal definition contradicts the linear oracle")
+    for w in why:
+        acc["oracle_defects"].append(f"{w} (n={len(nodes)}, nodes[:8]={list(nodes)[:8]!r})")
+    acc["xchecked"] += 1
+
+
 # ------------------------------------------------------------------ one function on one presentation
-def eval_case(fn, nodes, nbrs, params, pre=None):
+def eval_case(fn, nodes, nbrs, params, pre=None, via=None, out=None):
     """Run `fn` of the tree under check on the presentation; return [(obligation suffix, detail)].
-    `pre` caches oracle values of this presentation between calls (closure, core numbers)."""
+    `pre` caches oracle values of this presentation between calls (closure, cut vertices, bridges, core numbers).
+    `via` = (node list object, neighbour callable) to call with (history mode: the caller's long-lived objects) instead of
+    a fresh copy / a fresh callable; the oracle always works on the snapshot (nodes, nbrs).
+    `out`, when given, receives out["canon"] = order-independent text of the result (compared between processes)."""
     from oracles import c15_graph as O
     bad = []
-    nb = mk_nb(nodes, nbrs)
+    NODES, nb = via if via is not None else (list(nodes), mk_nb(nodes, nbrs))
     pre = pre if pre is not None else {}
-    if fn in ("articulation_points", "bridges", "kcore_decomposition", "kcore", "louvain"):
-        if "adj" not in pre:
-            pre["adj"] = O.closure(nodes, nbrs)
-        adj = pre["adj"]
-    if fn in ("kcore_decomposition", "kcore") and "core" not in pre:
-        pre["core"] = O.core_numbers(adj)
+    out = out if out is not None else {}
+    if fn in UND:
+        adj = oracle_und(nodes, nbrs, pre, "adj")
     if fn == "articulation_points":
         from solvor.articulation import articulation_points
-        sol = articulation_points(list(nodes), nb).solution
-        exp = O.cut_vertices(adj)
+        sol = articulation_points(NODES, nb).solution
+        out["canon"] = repr(_srt(sol)) if isinstance(sol, (set, frozenset)) else repr(sol)
+        exp = oracle_und(nodes, nbrs, pre, "cut")
         if not isinstance(sol, (set, frozenset)) or set(sol) != exp:
-            bad.append(("ensures:cut-vertices", f"returned {_srt(sol)}, removal-definition gives {_srt(exp)}"))
+            bad.append(("ensures:cut-vertices", _diff(sol, exp, "removal-definition")))
     elif fn == "bridges":
         from solvor.articulation import bridges
-        sol = bridges(list(nodes), nb).solution
-        exp = O.bridge_edges(adj)
+        sol = bridges(NODES, nb).solution
+        out["canon"] = repr(_srt(sol)) if isinstance(sol, list) else repr(sol)
+        exp = oracle_und(nodes, nbrs, pre, "bridges")
         ok_shape = isinstance(sol, list) and all(isinstance(e, tuple) and len(e) == 2 for e in sol)
         if not ok_shape:
             bad.append(("ensures:bridges", f"result is not a list of pairs: {sol!r}"))
@@ -95,38 +191,42 @@ def eval_case(fn, nodes, nbrs, params, pre=None):
             if len(set(got)) != len(got):
                 bad.append(("ensures:bridges", f"an edge is reported twice: {sol!r}"))
             elif set(got) != exp:
-                bad.append(("ensures:bridges", f"returned {_srt(map(_srt, got))}, removal-definition gives {_srt(map(_srt, exp))}"))
+                bad.append(("ensures:bridges", _diff([tuple(_srt(e)) for e in got], {tuple(_srt(e)) for e in exp}, "removal-definition")))
             if any(not (e[0] < e[1]) for e in sol):
-                bad.append(("ensures:canonical-order", f"edge not given as (min,max): {sol!r}"))
+                bad.append(("ensures:canonical-order", f"edge not given as (min,max): {[e for e in sol if not (e[0] < e[1])][:5]!r}"))
     elif fn == "kcore_decomposition":
         from solvor.kcore import kcore_decomposition
-        sol = kcore_decomposition(list(nodes), nb).solution
-        exp = pre["core"]
+        sol = kcore_decomposition(NODES, nb).solution
+        out["canon"] = repr(_srt(sol.items())) if isinstance(sol, dict) else repr(sol)
+        exp = oracle_und(nodes, nbrs, pre, "core")
         if not isinstance(sol, dict) or sol != exp:
-            bad.append(("ensures:core-numbers", f"returned {sol!r}, peeling-definition gives {exp!r}"))
+            bad.append(("ensures:core-numbers", _diff(sol.items() if isinstance(sol, dict) else sol, set(exp.items()), "peeling-definition (node, core number)")))
     elif fn == "kcore":
         from solvor.kcore import kcore
         k = params["k"]
-        sol = kcore(list(nodes), nb, k).solution
-        core = pre["core"]
+        sol = kcore(NODES, nb, k).solution
+        out["canon"] = repr(_srt(sol)) if isinstance(sol, (set, frozenset)) else repr(sol)
+        core = oracle_und(nodes, nbrs, pre, "core")
         exp = {v for v in nodes if core[v] >= k}
         if not isinstance(sol, (set, frozenset)) or set(sol) != exp:
-            bad.append(("ensures:core-at-least-k", f"k={k}: returned {_srt(sol)}, nodes with core number >= k are {_srt(exp)}"))
+            bad.append(("ensures:core-at-least-k", f"k={k}: " + _diff(sol, exp, "the set of nodes with core number >= k")))
     elif fn == "louvain":
         from solvor.community import louvain
         res = params["resolution"]
-        r = louvain(list(nodes), nb, resolution=res)
+        r = louvain(NODES, nb, resolution=res)
         sol = r.solution
         why = "result is not a list" if not isinstance(sol, list) else O.is_partition(nodes, sol)
+        out["canon"] = repr((_srt(_srt(c) for c in sol) if not why else sol, r.objective))
         if why:
-            bad.append(("ensures:partition", f"resolution={res}: {why}: {sol!r}"))
+            bad.append(("ensures:partition", f"resolution={res!r}: {why}: {repr(sol)[:400]}"))
         else:
             q = O.modularity(adj, sol, res)
             if q is not None:  # graphs without edges: modularity undefined, nothing demanded
                 obj = r.objective
-                if not isinstance(obj, (int, float)) or not math.isfinite(obj) or abs(Fraction(obj) - q) > MOD_TOL:
-                    bad.append(("ensures:modularity", f"resolution={res}: reported {obj!r}, modularity of the returned partition "
-                                                      f"{[_srt(c) for c in sol]} is {float(q)!r}"))
+                lim = MOD_TOL * max(1, Fraction(res))  # E3: absolute 1e-9, scaled with the resolution above 1
+                if not isinstance(obj, (int, float)) or not math.isfinite(obj) or abs(Fraction(obj) - q) > lim:
+                    bad.append(("ensures:modularity", f"resolution={res!r}: reported {obj!r}, modularity of the returned partition "
+                                                      f"{repr([_srt(c) for c in sol])[:400]} is {float(q)!r}"))
     elif fn in ("pagerank", "pagerank_edges"):
         from solvor.types import Status
         kw = {}
@@ -137,7 +237,7 @@ def eval_case(fn, nodes, nbrs, params, pre=None):
         tol = params.get("tol") if params.get("tol") is not None else 1e-6
         if fn == "pagerank":
             from solvor.pagerank import pagerank
-            r = pagerank(list(nodes), nb, **kw)
+            r = pagerank(NODES, nb, **kw)
         else:
             from solvor.pagerank import pagerank_edges
             n = len(nodes)
@@ -145,34 +245,40 @@ def eval_case(fn, nodes, nbrs, params, pre=None):
             edges = [(u, w) for u in range(n) for w in nbrs[u]]
             r = pagerank_edges(n, edges, backend="python", **kw)
         sol = r.solution
+        out["canon"] = repr((_srt(sol.items()) if isinstance(sol, dict) else sol, r.status.name))
         if not isinstance(sol, dict) or set(sol.keys()) != set(nodes) or len(sol) != len(nodes):
-            bad.append(("ensures:domain", f"scores are not given for exactly the node set: {sol!r}"))
+            bad.append(("ensures:domain", f"scores are not given for exactly the node set: {repr(sol)[:400]}"))
             return bad
         if not nodes:
             return bad
         vals = [sol[v] for v in nodes]
         if any((not isinstance(x, (int, float))) or (not math.isfinite(x)) for x in vals):
-            bad.append(("ensures:nonnegative", f"non-finite score: {sol!r}"))
+            bad.append(("ensures:nonnegative", f"non-finite score: {repr(sol)[:400]}"))
             return bad
         if any(x < 0 for x in vals):
-            bad.append(("ensures:nonnegative", f"negative score: {sol!r}"))
+            bad.append(("ensures:nonnegative", f"negative score: {repr(sol)[:400]}"))
         s = sum((Fraction(x) for x in vals), Fraction(0))
         if abs(s - 1) > SUM_TOL:
-            bad.append(("ensures:sums-to-1", f"scores sum to {float(s)!r}: {sol!r}"))
+            bad.append(("ensures:sums-to-1", f"scores sum to {float(s)!r}: {repr(sol)[:400]}"))
         if r.status != Status.MAX_ITER:
             verdicts = []
             for multi in (True, False):
                 res = O.pagerank_residual(nodes, nbrs, sol, d, multi)
                 lim = Fraction(tol) + FLOAT_SLACK
                 if res > lim:  # graph-dependent factor of assumption E1 (computed only when the plain bound fails)
-                    lim = Fraction(tol) * max(Fraction(1), O.pagerank_residual_bound(nodes, nbrs, d, multi)) + FLOAT_SLACK
+                    if len(nodes) <= BIG:
+                        factor = O.pagerank_residual_bound(nodes, nbrs, d, multi)
+                    else:
+                        from oracles import c15_big as B
+                        factor = B.pagerank_residual_bound_sparse(nodes, nbrs, d, multi)
+                    lim = Fraction(tol) * max(Fraction(1), factor) + FLOAT_SLACK
                 verdicts.append((res <= lim, res, lim))
                 if res <= lim:
                     break
             if not any(v[0] for v in verdicts):
                 res, lim = verdicts[0][1], verdicts[0][2]
-                bad.append(("ensures:equation", f"damping={d} tol={tol}: max_v |p_v - G(p)_v| = {float(res):.3e} > allowed {float(lim):.3e} "
-                                                f"(status {r.status.name}, {r.iterations} iterations): {sol!r}"))
+                bad.append(("ensures:equation", f"damping={d!r} tol={tol!r}: max_v |p_v - G(p)_v| = {float(res):.3e} > allowed {float(lim):.3e} "
+                                                f"(status {r.status.name}, {r.iterations} iterations): {repr(sol)[:400]}"))
     else:
         raise ValueError(fn)
     return bad
@@ -192,17 +298,23 @@ def plain_ratio(nodes, nbrs, params):
     return float(O.pagerank_residual(nodes, nbrs, r.solution, d, True) / Fraction(tol))
 
 
-def calls_for(nodes, nbrs, plan, pre):
-    """the (fn, params) list evaluated on one presentation under `plan`."""
-    from oracles import c15_graph as O
+def calls_for(nodes, nbrs, plan, pre, acc, inst=None, rng=None):
+    """the (fn, params) list evaluated on one presentation under `plan` (fills `pre` with the oracle values and
+    cross-validates the linear-time oracles on the way)."""
     calls = []
     if plan.get("und"):
         calls += [("articulation_points", {}), ("bridges", {}), ("kcore_decomposition", {})]
-        pre["adj"] = O.closure(nodes, nbrs)
-        pre["core"] = core = O.core_numbers(pre["adj"])
+        oracle_und(nodes, nbrs, pre, "adj")
+        if len(nodes) <= BIG:
+            for what in ("cut", "bridges", "core"):
+                oracle_und(nodes, nbrs, pre, what)
+        xcheck(nodes, pre, acc, inst, rng)
+        core = pre["core"]
         top = max(core.values()) if core else 0
         if plan.get("ktop"):  # lean plan (7-node graphs): only the two thresholds around the largest core number
             calls += [("kcore", {"k": top}), ("kcore", {"k": top + 1})]
+        elif plan.get("kbig"):  # size ladder: low thresholds and the two around the largest core number
+            calls += [("kcore", {"k": k}) for k in sorted({1, 2, top, top + 1})]
         else:
             calls += [("kcore", {"k": k}) for k in range(-1 if len(nodes) <= 4 else 0, top + 2)]
     for res in plan.get("res", ()):
@@ -214,33 +326,45 @@ def calls_for(nodes, nbrs, plan, pre):
     return calls
 
 
-def eval_presentation(nodes, nbrs, plan, acc):
+def guarded(thunk, budget=60):
+    """run thunk() -> [(suffix, detail)] under a CPU-time budget (ITIMER_VIRTUAL: the verdict does not depend on how busy
+    the machine is); the timer is disarmed in the inner finally so that a late signal is still caught by the outer except."""
+    signal.setitimer(signal.ITIMER_VIRTUAL, budget)
+    try:
+        try:
+            return thunk()
+        finally:
+            signal.setitimer(signal.ITIMER_VIRTUAL, 0)
+    except _Timeout:
+        return [("returns", f"no result after {budget} s of CPU time")]
+    except RecursionError:
+        return [("returns[recursion-depth]", f"RecursionError (recursion limit {sys.getrecursionlimit()})")]
+    except Exception as e:  # the functions are total on these inputs
+        return [("returns", f"raised {type(e).__name__}: {e}")]
+
+
+def record(acc, fn, asym, bad, case, tag=""):
+    for suffix, detail in bad:
+        obl = f"{P}/{fn}/{suffix}"
+        if asym and fn in UND and not suffix.startswith("returns[recursion-depth]"):
+            obl += "[asymmetric-lists]"
+        obl += tag
+        acc["fail_counts"][obl] = acc["fail_counts"].get(obl, 0) + 1
+        if acc["fail_counts"][obl] <= CAP:
+            acc["fails"].append((obl, case, detail))
+
+
+def eval_presentation(nodes, nbrs, plan, acc, inst=None, rng=None, label=None):
     """evaluate every planned call; record into the task accumulator."""
     asym = is_asym(nodes, nbrs)
     pre = {}
-    for fn, params in calls_for(nodes, nbrs, plan, pre):
+    for fn, params in calls_for(nodes, nbrs, plan, pre, acc, inst, rng):
         case = {"fn": fn, "nodes": list(nodes), "nbrs": [list(l) for l in nbrs], "params": params}
+        if label:
+            case["family"] = label
         acc["evals"] += 1
-        # CPU-time budget (ITIMER_VIRTUAL): the verdict does not depend on how busy the machine is
-        signal.setitimer(signal.ITIMER_VIRTUAL, 60)
-        try:
-            try:
-                bad = eval_case(fn, nodes, nbrs, params, pre)
-            finally:
-                signal.setitimer(signal.ITIMER_VIRTUAL, 0)
-        except _Timeout:
-            bad = [("returns", "no result after 60 s of CPU time")]
-        except RecursionError:
-            bad = [("returns", "RecursionError")]
-        except Exception as e:  # the functions are total on these inputs
-            bad = [("returns", f"raised {type(e).__name__}: {e}")]
-        for suffix, detail in bad:
-            obl = f"{P}/{fn}/{suffix}"
-            if asym and fn in ("articulation_points", "bridges", "kcore_decomposition", "kcore", "louvain"):
-                obl += "[asymmetric-lists]"
-            acc["fail_counts"][obl] = acc["fail_counts"].get(obl, 0) + 1
-            if acc["fail_counts"][obl] <= CAP:
-                acc["fails"].append((obl, case, detail))
+        bad = guarded(lambda: eval_case(fn, nodes, nbrs, params, pre))
+        record(acc, fn, asym, bad, case)
     key = hash((tuple(nodes), tuple(tuple(l) for l in nbrs), repr(sorted(plan.items()))))
     acc["cases"] += 1
     acc["asym"] += 1 if asym else 0
@@ -248,7 +372,10 @@ def eval_presentation(nodes, nbrs, plan, acc):
     if any(w in ns and (w != v or not plan.get("und")) for v, l in zip(nodes, nbrs) for w in l):
         acc["keys"].append(key)
     if len(acc["samples"]) < 2 and len(nodes) >= 3:
-        acc["samples"].append({"nodes": list(nodes), "nbrs": [list(l) for l in nbrs], "plan": {k: v for k, v in plan.items()}})
+        if len(nodes) <= BIG:
+            acc["samples"].append({"nodes": list(nodes), "nbrs": [list(l) for l in nbrs], "plan": {k: v for k, v in plan.items()}})
+        elif label:
+            acc["samples"].append(dict(label, plan={k: v for k, v in plan.items()}))
 
 
 # ------------------------------------------------------------------ generators
@@ -269,7 +396,7 @@ def edges_of_mask(n, mask):
     return [e for b, e in enumerate(pairs_of(n)) if mask >> b & 1]
 
 
-def present(rng, n, edges, asym=0.0, dup=0.0, loops=0.0, foreign=0.0, strings=False, isolated=0):
+def present(rng, n, edges, asym=0.0, dup=0.0, loops=0.0, foreign=0.0, strings=False, isolated=0, ret_labels=False):
     """random presentation of the simple graph (n, edges) plus `isolated` extra nodes."""
     total = n + isolated
     labels = list(range(total))
@@ -295,10 +422,12 @@ def present(rng, n, edges, asym=0.0, dup=0.0, loops=0.0, foreign=0.0, strings=Fa
         if rng.random() < loops:
             l.extend([lab] * rng.randint(1, 2))
         if rng.random() < foreign:
-            l.append("zz" if strings else 99)
+            l.append("zz" if strings else 99 + 10 * total)
         rng.shuffle(l)
     nodes = list(labels)
     rng.shuffle(nodes)
+    if ret_labels:
+        return nodes, [lists[v] for v in nodes], labels
     return nodes, [lists[v] for v in nodes]
 
 
@@ -375,6 +504,386 @@ def structured(rng):
     return n, sorted(E), kind
 
 
+# ------------------------------------------------------------------ S6: size ladder
+LADDER_Q = (11, 33, 65, 130, 260, 501, 520, 600, 1000, 1025, 2000, 3000)
+LADDER_Q2 = (130, 501, 600, 1025, 3000)  # sizes that get a second, randomly presented instance in the quick tier
+LADDER_T = (10, 12, 33, 34, 64, 65, 66, 129, 131, 140, 257, 260, 499, 500, 501, 502, 513, 550, 600, 999, 1001, 1024, 1025,
+            1500, 2048, 2049, 2500, 3000, 5000)
+GNP_C = (0.8, 1.5, 3.0)
+
+
+def ladder_instance(fam, n, rep, seed):
+    """(nodes, nbrs, inst in label space, label for the evidence) of one size-ladder instance."""
+    from oracles import c15_big as B
+    rng = random.Random(f"{seed}/S6/{fam}/{n}/{rep}")
+    if fam.startswith("gnp"):
+        inst = {"n": n, "edges": B.gnp_sparse(rng, n, float(fam[3:])), "cut": None, "core": None, "family": fam}
+    else:
+        inst = B.family(rng, fam, n)
+    style = "identity" if rep == 0 else rng.choice(["shuffled", "shuffled", "messy", "strings", "one-sided"])
+    nn = inst["n"]
+    if style == "identity":
+        labels = list(range(nn))
+        nodes = list(labels)
+        nbrs = [[] for _ in range(nn)]
+        for a, b in inst["edges"]:
+            nbrs[a].append(b)
+            nbrs[b].append(a)
+    else:
+        kw = {"shuffled": {}, "messy": dict(asym=0.3, dup=0.2, loops=0.1, foreign=0.05), "strings": dict(strings=True),
+              "one-sided": dict(asym=1.0)}[style]
+        nodes, nbrs, labels = present(rng, nn, inst["edges"], ret_labels=True, **kw)
+    li = dict(inst)
+    li.pop("edges")
+    if inst.get("cut") is not None:
+        li["cut"] = {labels[v] for v in inst["cut"]}
+        li["bridges"] = {frozenset(labels[v] for v in e) for e in inst["bridges"]}
+    if inst.get("core") is not None:
+        li["core"] = {labels[v]: c for v, c in enumerate(inst["core"])}
+    label = {"scope": "S6", "family": fam, "n": nn, "rep": rep, "style": style, "edges": len(inst["edges"])}
+    return nodes, nbrs, li, label, rng
+
+
+# ------------------------------------------------------------------ S7: history mode
+NB_KINDS = ("lambda_getitem", "bound_getitem", "lambda_get", "callable_object")
+HIST_FNS = ("articulation_points", "bridges", "kcore_decomposition", "kcore", "louvain", "pagerank")
+
+
+class _NbObj:
+    def __init__(self, g):
+        self.g = g
+
+    def __call__(self, v):
+        return self.g[v]
+
+
+def make_nb(kind, G):
+    if kind == "lambda_getitem":
+        return lambda v: G[v]
+    if kind == "bound_getitem":
+        return G.__getitem__
+    if kind == "lambda_get":
+        return lambda v: G.get(v, [])
+    return _NbObj(G)
+
+
+def apply_op(nodes, G, op):
+    """in-place edit of the caller's long-lived objects (the node list and the dict the neighbour callable reads)."""
+    k = op[0]
+    if k == "add_edge":
+        _, a, b, how = op
+        if how in ("both", "a"):
+            G[a].append(b)
+        if how in ("both", "b"):
+            G[b].append(a)
+    elif k == "del_edge":
+        _, a, b = op
+        G[a][:] = [x for x in G[a] if x != b]
+        G[b][:] = [x for x in G[b] if x != a]
+    elif k == "add_node":
+        _, v, l, pos = op
+        nodes.insert(pos, v)
+        G[v] = list(l)
+    elif k == "del_node":
+        _, v = op
+        nodes.remove(v)
+        del G[v]
+    elif k == "set_nbrs":
+        _, v, l = op
+        G[v][:] = l
+    elif k == "order":
+        nodes[:] = op[1]
+    elif k == "rewire":
+        G.clear()
+        for v, l in op[1]:
+            G[v] = list(l)
+    elif k == "rename":
+        _, old, new = op
+        nodes[nodes.index(old)] = new
+        G[new] = G.pop(old)
+        for l in G.values():
+            l[:] = [new if x == old else x for x in l]
+    else:
+        raise ValueError(k)
+
+
+def gen_history(rng):
+    """a history case: initial presentation + a list of ops (in-place edits and calls), all concrete and JSON-able."""
+    n, ed, _ = structured(rng)
+    strings = rng.random() < 0.15
+    nodes, nbrs = present(rng, n, ed, asym=rng.choice([0.0, 0.0, 0.4]), dup=rng.choice([0.0, 0.0, 0.3]), loops=rng.choice([0.0, 0.2]),
+                          strings=strings)
+    case = {"mode": "history", "nb_kind": rng.choice(NB_KINDS), "init": {"nodes": list(nodes), "nbrs": [list(l) for l in nbrs]}, "ops": []}
+    nodes = list(nodes)
+    G = {v: list(l) for v, l in zip(nodes, nbrs)}
+    focus = rng.choice(HIST_FNS) if rng.random() < 0.6 else None  # most sequences keep asking one function about the edited graph
+    fresh_label = [1000]
+    last_call = None
+
+    def new_label():
+        fresh_label[0] += 1
+        return ("m%d" % fresh_label[0]) if strings else fresh_label[0]
+
+    def a_call():
+        fn = focus if focus and rng.random() < 0.85 else rng.choice(HIST_FNS)
+        if fn == "kcore":
+            return ["call", fn, {"k": rng.choice([0, 1, 1, 2, 2, 3, 3, 4])}]
+        if fn == "louvain":
+            return ["call", fn, {"resolution": rng.choice([0.5, 1.0, 1.0, 2.0])}]
+        if fn == "pagerank":
+            return ["call", fn, {"damping": rng.choice([0.5, 0.85]), "max_iter": 2000, "tol": None}]
+        return ["call", fn, {}]
+
+    def an_edit():
+        kind = rng.choice(["add_edge", "add_edge", "del_edge", "del_edge", "del_edge", "add_node", "del_node", "set_nbrs", "order",
+                           "rewire", "rename"])
+        if kind == "add_edge" and len(nodes) >= 2:
+            a, b = rng.sample(nodes, 2)
+            return ["add_edge", a, b, rng.choice(["both", "both", "a", "b"])]
+        if kind == "del_edge":
+            cand = [(v, w) for v in nodes for w in G[v] if w != v and w in G]
+            if cand:
+                a, b = rng.choice(cand)
+                return ["del_edge", a, b]
+        if kind == "add_node" and len(nodes) < 14:
+            v = new_label()
+            l = rng.sample(nodes, min(len(nodes), rng.randint(0, 3)))
+            return ["add_node", v, l, rng.randint(0, len(nodes))]
+        if kind == "del_node" and len(nodes) > 3:
+            return ["del_node", rng.choice(nodes)]
+        if kind == "set_nbrs" and nodes:
+            v = rng.choice(nodes)
+            l = list(G[v])
+            rng.shuffle(l)
+            if l and rng.random() < 0.3:
+                l.append(rng.choice(l))
+            if rng.random() < 0.2:
+                l.append(v)
+            return ["set_nbrs", v, l]
+        if kind == "order":
+            o = list(nodes)
+            rng.shuffle(o)
+            return ["order", o if rng.random() < 0.7 else list(nodes)[::-1]]
+        if kind == "rewire":  # a different graph on the same node labels, same dict object, same node list
+            m = len(nodes)
+            ed2 = [(i, j) for i in range(m) for j in range(i + 1, m) if rng.random() < rng.choice([0.15, 0.3, 0.5])]
+            new = {v: [] for v in nodes}
+            for i, j in ed2:
+                new[nodes[i]].append(nodes[j])
+                new[nodes[j]].append(nodes[i])
+            return ["rewire", [[v, new[v]] for v in nodes]]
+        if kind == "rename" and nodes:
+            return ["rename", rng.choice(nodes), new_label()]
+        return None
+
+    for _ in range(rng.randint(8, 16)):
+        r = rng.random()
+        if r < 0.45:
+            op = a_call()
+            last_call = op
+        elif r < 0.55 and last_call is not None:
+            op = [last_call[0], last_call[1], dict(last_call[2])]  # the same call repeated
+        else:
+            op = an_edit()
+            if op is None:
+                continue
+            apply_op(nodes, G, op)
+        case["ops"].append(op)
+    if not case["ops"] or case["ops"][-1][0] != "call":
+        case["ops"].append(a_call())
+    return case
+
+
+def run_history(case, on_call=None):
+    """execute a history case in this process; returns [(op index, fn, params, snapshot nodes, snapshot nbrs, bad, canon)]."""
+    nodes = list(case["init"]["nodes"])
+    G = {v: list(l) for v, l in zip(nodes, case["init"]["nbrs"])}
+    nb = make_nb(case["nb_kind"], G)
+    res = []
+    for i, op in enumerate(case["ops"]):
+        if op[0] != "call":
+            apply_op(nodes, G, op)
+            continue
+        fn, params = op[1], op[2]
+        sn, sl = list(nodes), [list(G[v]) for v in nodes]
+        out = {}
+        bad = guarded(lambda: eval_case(fn, sn, sl, params, None, (nodes, nb), out))
+        res.append((i, fn, params, sn, sl, bad, out.get("canon")))
+    return res
+
+
+class Fresh:
+    """client of a pristine server process (a new interpreter that has imported the tree under check and never called it);
+    every request is executed in a child forked from that pristine state, i.e. in a fresh process."""
+
+    def __init__(self):
+        from vf.core import VERIF
+        code = f"import sys; sys.path.insert(0, {VERIF!r}); from checks import C15; C15.fresh_server()"
+        self.p = subprocess.Popen([sys.executable, "-c", code], stdin=subprocess.PIPE, stdout=subprocess.PIPE, cwd=VERIF)
+
+    def ask(self, req):
+        data = pickle.dumps(req)
+        self.p.stdin.write(struct.pack("<I", len(data)) + data)
+        self.p.stdin.flush()
+        hdr = self.p.stdout.read(4)
+        if len(hdr) < 4:
+            return ("error", "fresh-process server died")
+        return pickle.loads(self.p.stdout.read(struct.unpack("<I", hdr)[0]))
+
+    def close(self):
+        try:
+            self.p.stdin.close()
+            self.p.wait(timeout=30)
+        except Exception:
+            self.p.kill()
+
+
+def _fresh_do(req):
+    if req[0] == "call":
+        _, fn, nodes, nbrs, params = req
+        out = {}
+        bad = guarded(lambda: eval_case(fn, nodes, nbrs, params, None, None, out))
+        return ("ok", out.get("canon"), bad)
+    if req[0] == "history":
+        res = run_history(req[1])
+        return ("ok", None, res[-1][5] if res else [])
+    if req[0] == "history_all":
+        return ("ok", None, run_history(req[1]))
+    return ("error", "unknown request")
+
+
+def fresh_server():
+    """stdin/stdout loop of the pristine server: length-prefixed pickles; each request runs in a forked child."""
+    use_repo()
+    import solvor.articulation  # noqa: F401  imported, never called in this process
+    import solvor.community  # noqa: F401
+    import solvor.kcore  # noqa: F401
+    import solvor.pagerank  # noqa: F401
+    signal.signal(signal.SIGVTALRM, _alarm)
+    inp, outp = sys.stdin.buffer, sys.stdout.buffer
+    while True:
+        hdr = inp.read(4)
+        if len(hdr) < 4:
+            return
+        req = pickle.loads(inp.read(struct.unpack("<I", hdr)[0]))
+        r, w = os.pipe()
+        pid = os.fork()
+        if pid == 0:
+            try:
+                os.close(r)
+                try:
+                    data = pickle.dumps(_fresh_do(req))
+                except BaseException as e:  # noqa: BLE001
+                    data = pickle.dumps(("error", repr(e)))
+                with os.fdopen(w, "wb") as f:
+                    f.write(data)
+            finally:
+                os._exit(0)
+        os.close(w)
+        with os.fdopen(r, "rb") as f:
+            data = f.read()
+        os.waitpid(pid, 0)
+        outp.write(struct.pack("<I", len(data)) + data)
+        outp.flush()
+
+
+def shrink_history(fresh, case, suffixes):
+    """greedy one-pass removal of ops that are not needed for the last call to fail (each trial in a fresh process)."""
+    ops = list(case["ops"])
+    j = len(ops) - 2
+    while j >= 0:
+        trial = dict(case, ops=ops[:j] + ops[j + 1:])
+        ans = fresh.ask(("history", trial))
+        if ans[0] == "ok" and {x[0] for x in ans[2]} & suffixes:
+            ops = trial["ops"]
+        j -= 1
+    return dict(case, ops=ops)
+
+
+def history_task(idx, count, seed, acc):
+    rng = random.Random(f"{seed}/S7/{idx}")
+    fresh = Fresh()
+    shrunk = 0
+    try:
+        for _ in range(count):
+            case = gen_history(rng)
+            strings = any(isinstance(v, str) for v in case["init"]["nodes"])
+            ans = fresh.ask(("history_all", case))  # the whole sequence runs in ONE fresh process: the case is self-contained
+            if ans[0] != "ok":
+                acc["oracle_defects"].append(f"history sequence could not be run: {ans[1]}")
+                continue
+            res = ans[2]
+            acc["cases"] += 1
+            for (i, fn, params, sn, sl, bad, canon) in res:
+                acc["evals"] += 1
+                asym = is_asym(sn, sl)
+                if any(w in set(sn) for l in sl for w in l):
+                    acc["keys"].append(hash(("S7", i, fn, repr(params), tuple(sn), tuple(tuple(l) for l in sl))))
+                sub = dict(case, ops=case["ops"][:i + 1])
+                if bad:
+                    alone = fresh.ask(("call", fn, sn, sl, params))
+                    if alone[0] == "ok" and not alone[2] and shrunk < 3:  # fails only after the earlier calls: minimise the sequence
+                        shrunk += 1
+                        sub = shrink_history(fresh, sub, {x[0] for x in bad})
+                    tag = "[after-earlier-calls]" if alone[0] == "ok" and not alone[2] else ""
+                    record(acc, fn, asym, bad, sub, tag)
+                    continue
+                if strings and sys.flags.hash_randomization:
+                    continue  # string hashes differ between processes: iteration orders are not comparable
+                if fn not in ("louvain", "pagerank") and i != len(case["ops"]) - 1:
+                    continue  # the oracle pins these results completely; only the last call of a sequence is also run afresh
+                ans = fresh.ask(("call", fn, sn, sl, params))
+                acc["fresh"] += 1
+                if ans[0] != "ok":
+                    acc["oracle_defects"].append(f"fresh-process comparison failed: {ans[1]}")
+                elif ans[1] != canon:
+                    record(acc, fn, asym, [("history:same-as-fresh-process",
+                                            f"call #{i} of the sequence returned {str(canon)[:300]}, the same call in a fresh process returns {str(ans[1])[:300]}")], sub)
+            if len(acc["samples"]) < 1:
+                acc["samples"].append({"scope": "S7", "nb_kind": case["nb_kind"], "init": case["init"], "ops": case["ops"][:6]})
+    finally:
+        fresh.close()
+
+
+# ------------------------------------------------------------------ S8: fine-grained numerics
+E40, E36 = 2.0 ** -40, 2.0 ** -36
+NUM_DAMP = (E40, 2.0 ** -20, 1e-9, 0.5 - E40, 0.5 + E40, 0.85 - E36, 0.85 + E36, 0.85, 1 - 2.0 ** -10, 1 - 2.0 ** -7)
+NUM_TOL = (None, 1e-9, 1e-9 * (1 - 2.0 ** -30), 1e-9 * (1 + 2.0 ** -30), E40, 1e-12, 1e-15, 1e-300, 0.0, 0.5, 1.0, 2.0)
+NUM_ITER = (None, 1, 2, 3, 99, 100, 101, 20000)
+
+
+def numeric_task(idx, count, seed, acc):
+    rng = random.Random(f"{seed}/S8/{idx}")
+    for _ in range(count):
+        # PageRank: small digraphs with dangling nodes, self loops, parallel arcs
+        n = rng.randint(2, 7)
+        p = rng.choice([0.15, 0.3, 0.5, 0.9])
+        nodes = list(range(n))
+        nbrs = [[w for w in range(n) if rng.random() < p] for _ in range(n)]
+        if rng.random() < 0.3:
+            nbrs[rng.randrange(n)] = []
+        if rng.random() < 0.2:
+            v = rng.randrange(n)
+            nbrs[v] = nbrs[v] + nbrs[v][:1]
+        pr = tuple((rng.choice(NUM_DAMP), rng.choice(NUM_ITER), rng.choice(NUM_TOL)) for _ in range(4))
+        eval_presentation(nodes, nbrs, {"pr": pr}, acc)
+        # louvain: resolutions at and 2^-40 / 2^-36 around exact ties of the modularity gain e - res*d*s/(2m)
+        if rng.random() < 0.5:
+            n2, ed, _ = structured(rng)
+        else:
+            n2 = rng.randint(2, 6)
+            ed = [e for e in pairs_of(n2) if rng.random() < 0.5]
+        nodes2, nbrs2 = present(rng, n2, ed)
+        m = len(ed)
+        ress = [E40, 1 - E40, 1 + E40, 2 - E40, 2.0, 2 + E40, 1e-9, 1024.0, 2.0 ** 20]
+        if m:
+            for _ in range(4):
+                e, d, sg = rng.randint(1, 3), rng.randint(1, 5), rng.randint(1, 8)
+                tie = 2 * m * e / (d * sg)
+                ress += [tie, tie * (1 - E40), tie * (1 + E40), tie * (1 + E36)]
+        eval_presentation(nodes2, nbrs2, {"res": tuple(rng.sample(ress, 6))}, acc)
+
+
 # ------------------------------------------------------------------ worker
 PLAN_UND = {"und": True, "res": RES}
 PR_STD = tuple((d, 20000, None) for d in DAMP)
@@ -385,8 +894,20 @@ def work(task):
     from vf.core import use_repo
     use_repo()
     signal.signal(signal.SIGVTALRM, _alarm)
-    acc = {"evals": 0, "cases": 0, "keys": [], "fails": [], "fail_counts": {}, "samples": [], "ratio": 0.0, "asym": 0}
+    acc = {"evals": 0, "cases": 0, "keys": [], "fails": [], "fail_counts": {}, "samples": [], "ratio": 0.0, "asym": 0,
+           "oracle_defects": [], "xchecked": 0, "fresh": 0, "big": 0}
     scope = task[0]
+    t0 = os.times()
+    try:
+        _work(task, scope, acc)
+    finally:
+        t1 = os.times()
+        acc["cpu"] = (scope[:2], (t1.user - t0.user) + (t1.system - t0.system) + (t1.children_user - t0.children_user)
+                      + (t1.children_system - t0.children_system))
+    return acc
+
+
+def _work(task, scope, acc):
     if scope == "S1":
         _, n, lo, hi = task
         nodes = list(range(n))
@@ -454,9 +975,20 @@ def work(task):
             tol = rng.choice([None, None, 1e-3, 1e-9, 1e-12])
             plan = {"und": True, "res": (res,), "pr": ((d, 60000, tol), (d, None, None))}
             eval_presentation(nodes, nbrs, plan, acc)
+    elif scope == "S6":
+        _, fam, n, rep, seed = task
+        nodes, nbrs, inst, label, rng = ladder_instance(fam, n, rep, seed)
+        plan = {"und": True, "kbig": True, "res": (rng.choice([0.5, 1.0, 1.0, 2.0]),), "pr": ((rng.choice([0.5, 0.85]), 2000, None), (None, None, None))}
+        eval_presentation(nodes, nbrs, plan, acc, inst, rng, label)
+        acc["big"] += 1
+    elif scope == "S7":
+        _, idx, count, seed = task
+        history_task(idx, count, seed, acc)
+    elif scope == "S8":
+        _, idx, count, seed = task
+        numeric_task(idx, count, seed, acc)
     else:
         raise ValueError(scope)
-    return acc
 
 
 def chunks(total, size):
@@ -466,6 +998,7 @@ def chunks(total, size):
 # ------------------------------------------------------------------ driver
 def oracle_selfcheck(ctx):
     """the oracles agree with hand-known facts (a wrong oracle is a checker defect, not a violation)."""
+    from oracles import c15_big as B
     from oracles import c15_graph as O
     path = O.closure([0, 1, 2, 3], [[1], [2], [3], []])
     assert O.cut_vertices(path) == {1, 2} and len(O.bridge_edges(path)) == 3
@@ -481,6 +1014,17 @@ def oracle_selfcheck(ctx):
             p = O.pagerank_exact(nodes, nbrs, Fraction(17, 20), multi)
             assert sum(p.values()) == 1 and all(x > 0 for x in p.values())
             assert O.pagerank_step(nodes, O.arcs(nodes, nbrs, multi), p, Fraction(17, 20)) == p
+            assert B.pagerank_residual_bound_sparse(nodes, nbrs, Fraction(17, 20), multi) == O.pagerank_residual_bound(nodes, nbrs, Fraction(17, 20), multi)
+    # linear-time oracles and constructions (the systematic comparison happens on every presentation, see xcheck)
+    assert B.lowpoint(path) == ({1, 2}, O.bridge_edges(path), 1) and B.chains(path) == ({1, 2}, O.bridge_edges(path))
+    assert B.lowpoint(k4p)[:2] == ({3}, {frozenset((3, 4))}) == B.chains(k4p) and B.core_numbers_peel(k4p) == O.core_numbers(k4p)
+    rng = random.Random(15)
+    for fam in B.FAMILIES_SHALLOW + B.FAMILIES_DEEP:
+        inst = B.family(rng, fam, rng.randint(9, 14))
+        nodes = list(range(inst["n"]))
+        adj = O.closure(nodes, [[b for a, b in inst["edges"] if a == v] for v in nodes])
+        assert O.cut_vertices(adj) == inst["cut"] and O.bridge_edges(adj) == inst["bridges"] and O.n_components(adj) == inst["comps"], fam
+        assert inst["core"] is None or inst["core"] == [O.core_numbers(adj)[v] for v in nodes], fam
 
 
 def run(ctx: Ctx):
@@ -529,9 +1073,56 @@ def run(ctx: Ctx):
     ctx.scope("S5 structured random graphs (tree, tree+chords, cactus, clique chain, G(n,p), union, bipartite, ladder)", n="6..14 incl. isolated",
               runs=r5, damping="0.01..0.999", resolution="0.01..10", tol="default,1e-3,1e-9,1e-12",
               features="asymmetric lists, duplicates, self loops, foreign neighbours, string labels, shuffled node/neighbour order")
+    from oracles import c15_big as B
+    fams = B.FAMILIES_SHALLOW + B.FAMILIES_DEEP
+    gnps = tuple(f"gnp{c}" for c in GNP_C)
+    n6 = 0
+    if q:
+        for n in LADDER_Q:
+            for fam in fams + (gnps if n in (33, 130, 520, 1000, 2000) else ()):
+                for rep in ((0, 1) if n in LADDER_Q2 else (0,)):
+                    tasks.append(("S6", fam, n, rep, seed))
+                    n6 += 1
+    else:
+        for n in LADDER_T:
+            for fam in fams + gnps:
+                for rep in range(4 if n <= 3000 else 2):
+                    tasks.append(("S6", fam, n, rep, seed))
+                    n6 += 1
+    ctx.scope("S6 size ladder: instances far beyond the brute-force scope, answers known by construction / from certifying linear-time oracles",
+              sizes=list(LADDER_Q if q else LADDER_T), families=list(fams), sparse_random=[f"G(n, {c}/n)" for c in GNP_C], instances=n6,
+              presentations="rep 0: labels 0..n-1 in order, sorted symmetric lists; other reps: shuffled labels/orders, string labels, one-sided lists, "
+                            "duplicates + self loops + foreign neighbours",
+              functions="articulation_points, bridges, kcore_decomposition, kcore(k in {1, 2, max, max+1}), louvain(one resolution), "
+                        "pagerank(damping 0.5 or 0.85 with max_iter 2000; defaults)",
+              oracle="cut vertices / bridges: low-point DFS == chain decomposition == by-construction answer (block-tree theorem), spot-checked by "
+                     "removal on <= 20 sampled vertices/edges; core numbers: work-list peeling (== by-construction for disjoint unions); "
+                     "modularity and PageRank residual exact (Fractions)",
+              shallow_families=list(B.FAMILIES_SHALLOW), deep_families=list(B.FAMILIES_DEEP))
+    h7, c7 = (40, 12) if q else (96, 50)
+    tasks += [("S7", i, c7, seed) for i in range(h7)]
+    ctx.scope("S7 history mode: ONE node list object and ONE neighbour callable (lambda over a dict / dict.__getitem__ / dict.get / callable object) "
+              "reused over 8..17 ops; in-place edits between calls (add/delete edge, add/delete/rename node, rewrite a neighbour list, reorder the "
+              "node list, replace the whole graph inside the same dict); the same call repeated", sequences=h7 * c7,
+              judged="every call against the brute-force oracle for the graph as it is at that call; every louvain / pagerank call (results not "
+                     "pinned by the oracle) and the last call of every sequence also made in a fresh process (forked from a pristine interpreter that "
+                     "imported the tree under check and never called it) and compared order-independently; a failing call is re-run alone in a fresh "
+                     "process to tell history-dependent failures ([after-earlier-calls], sequence minimised op by op) from plain ones",
+              functions=list(HIST_FNS), n="3..14")
+    h8, c8 = (32, 25) if q else (128, 100)
+    tasks += [("S8", i, c8, seed) for i in range(h8)]
+    ctx.scope("S8 fine-grained numerics inside the quantifier", runs=h8 * c8,
+              pagerank=dict(damping=[repr(x) for x in NUM_DAMP], tol=[repr(x) for x in NUM_TOL], max_iter=[repr(x) for x in NUM_ITER],
+                            graphs="random digraphs on 2..7 nodes with dangling nodes, self loops, parallel arcs; 4 configurations each"),
+              louvain=dict(resolution="2^-40, 1 +- 2^-40, 2 +- 2^-40, 2, 1e-9, 1024, 2^20 and exact ties 2m*e/(d*s) of the move gain with "
+                                      "relative offsets -2^-40, +2^-40, +2^-36; 6 per graph", graphs="structured 6..12 nodes / G(n, 1/2) on 2..6 nodes"))
     # heavy tasks first
-    order = {"S3": 0, "S1": 1, "S5": 2, "S2r": 3, "S4": 4, "S2x": 5}
-    tasks.sort(key=lambda t: (order[t[0]], -t[1] if isinstance(t[1], int) else 0))
+    order = {"S3": 0, "S1": 1, "S7": 2, "S6": 3, "S5": 4, "S8": 5, "S2r": 6, "S4": 7, "S2x": 8}
+    def weight(t):
+        w = t[2] if t[0] == "S6" else t[1]
+        return -w if isinstance(w, int) else 0
+
+    tasks.sort(key=lambda t: (order[t[0]], weight(t)))
     import os
     c0 = os.times()
     results = pmap(work, tasks, chunksize=1)
@@ -543,6 +1134,9 @@ def run(ctx: Ctx):
     samples = []
     cases = n_asym = 0
     for acc in results:
+        for d in acc["oracle_defects"][:3]:
+            if len(ctx.defects) < 10:
+                ctx.defects.append("oracle cross-check: " + d)
         n_asym += acc["asym"]
         ctx.evaluations += acc["evals"]
         cases += acc["cases"]
@@ -554,19 +1148,29 @@ def run(ctx: Ctx):
             samples += acc["samples"][:1]
     kept = {}
     allf = [f for acc in results for f in acc["fails"]]
-    allf.sort(key=lambda f: (len(f[1]["nodes"]), sum(len(l) for l in f[1]["nbrs"])))  # smallest first
+    allf.sort(key=lambda f: ((len(f[1]["nodes"]), sum(len(l) for l in f[1]["nbrs"])) if "nodes" in f[1]
+                             else (len(f[1]["init"]["nodes"]), len(f[1]["ops"]))))  # smallest first
     for obl, case, detail in allf:
         kept[obl] = kept.get(obl, 0) + 1
-        if kept[obl] <= CAP:
+        if kept[obl] <= 3:  # the 3 smallest per obligation (all are counted in coverage.failing_evaluations_by_obligation)
             ctx.violation(obl, case, detail)
     ctx.count(0, keys, samples)
+    cpu = {}
+    for acc in results:
+        cpu[acc["cpu"][0]] = round(cpu.get(acc["cpu"][0], 0.0) + acc["cpu"][1], 1)
+    ctx.notes["cpu_s_by_scope"] = cpu
     ctx.notes["presentations_evaluated"] = cases
+    ctx.notes["presentations_on_which_the_linear_oracles_were_cross_checked"] = sum(acc["xchecked"] for acc in results)
+    ctx.notes["size_ladder_instances"] = sum(acc["big"] for acc in results)
+    ctx.notes["calls_compared_with_a_fresh_process"] = sum(acc["fresh"] for acc in results)
     ctx.notes["presentations_with_asymmetric_lists"] = n_asym
     ctx.notes["failing_evaluations_by_obligation"] = fail_counts
     ctx.notes["pagerank_plain_residual_over_tol_max_seen"] = round(ratio, 4)
     ctx.rule = ("case = presentation (node list order, neighbour lists incl. order/duplicates/self loops) evaluated with every function/config of "
-                "its scope and compared with the brute-force definition on the intended graph; evaluations = function calls compared; "
-                "non-trivial = the intended graph has at least one edge (arc); distinct = different (node list, neighbour lists, configuration plan)")
+                "its scope and compared with the brute-force definition on the intended graph (S6, more than 40 nodes: with the cross-validated "
+                "linear-time oracles); S7: case = one call of a history sequence, judged on the graph as it is at that call; evaluations = function "
+                "calls compared; non-trivial = the intended graph has at least one edge (arc); distinct = different (node list, neighbour lists, "
+                "configuration plan) resp. (S7) different (position in the sequence, function, parameters, graph at the call)")
     ctx.assumptions += [
         "G1 intended undirected graph of a neighbour function = simple symmetric closure: {u,v} is an edge iff u != v and (v in N(u) or u in N(v)) "
         "(module docstrings: 'Treats graph as undirected', louvain: 'edges in both directions are counted once'; kcore and louvain build exactly "
@@ -581,26 +1185,51 @@ def run(ctx: Ctx):
         "coverage.pagerank_plain_residual_over_tol_max_seen)",
         "E2 the equation clause is demanded of results whose status is not MAX_ITER (max_iter is a documented cap and is reported); "
         "non-negativity, domain and sum 1 (+-1e-9) are demanded always",
-        "E3 modularity equality within 1e-9 (float summation order); graphs without edges: modularity undefined, only the partition is checked",
-        "nodes are distinct; neighbour functions are pure",
+        "E3 modularity equality within 1e-9 * max(1, resolution) (float summation order; the value scales with the resolution); graphs without "
+        "edges: modularity undefined, only the partition is checked",
+        "H1 (history mode) the functions are functions of their arguments: a call returns the same value (compared order-independently: sets, "
+        "dict items, partition blocks, bit-identical floats) as the same call in a fresh process; differences are reported under "
+        "<fn>/history:same-as-fresh-process (the statement describes each result as determined by the graph; C15's frame obligation forbids "
+        "persistent state). Wrong answers after earlier calls are reported under the ordinary clause with the suffix [after-earlier-calls]",
+        "R1 'return' for every graph includes graphs whose DFS is deep: a RecursionError is reported under <fn>/returns[recursion-depth] "
+        "(separate obligation, so that it can be triaged on its own)",
+        "nodes are distinct; neighbour functions are pure for the duration of a call (history mode edits the data they read only between calls)",
     ]
-    ctx.trusted += ["oracles/c15_graph.py (brute-force definitions over Fractions; self-checked on hand-computed graphs at start)"]
+    ctx.trusted += ["oracles/c15_graph.py (brute-force definitions over Fractions; self-checked on hand-computed graphs at start)",
+                    "oracles/c15_big.py (low-point DFS, chain decomposition, work-list peeling, block-tree constructions: compared with the brute force "
+                    "on every presentation of S1-S5 and with each other / the construction / sampled removals on every S6 instance; any disagreement "
+                    "is a checker defect)"]
 
 
 def replay(rec) -> int:
     use_repo()
     signal.signal(signal.SIGVTALRM, _alarm)
     case = rec["case"]
-    signal.setitimer(signal.ITIMER_VIRTUAL, 120)
-    try:
-        try:
-            bad = eval_case(case["fn"], case["nodes"], case["nbrs"], case["params"])
-        finally:
-            signal.setitimer(signal.ITIMER_VIRTUAL, 0)
-    except _Timeout:
-        bad = [("returns", "no result after 120 s of CPU time")]
-    except Exception as e:
-        bad = [("returns", f"raised {type(e).__name__}: {e}")]
-    print("replay:", case["fn"], "nodes", case["nodes"], "nbrs", case["nbrs"], case["params"])
+    if case.get("mode") == "history":
+        print("replay: history sequence, neighbour callable", case["nb_kind"], "init", case["init"])
+        res = run_history(case)
+        calls = iter(res)
+        for i, op in enumerate(case["ops"]):
+            if op[0] == "call":
+                r = next(calls)
+                print(f"  op {i}: call {op[1]} {op[2]} on nodes {r[3]} nbrs {r[4]} ->", r[5] or "ok")
+            else:
+                print(f"  op {i}: {op}")
+        bad = res[-1][5] if res else []
+        if not bad and "same-as-fresh-process" in rec.get("obligation", "") and res:
+            fresh = Fresh()
+            try:
+                ans = fresh.ask(("call", res[-1][1], res[-1][3], res[-1][4], res[-1][2]))
+            finally:
+                fresh.close()
+            if ans[0] == "ok" and ans[1] != res[-1][6]:
+                bad = [("history:same-as-fresh-process", f"in sequence: {res[-1][6]}; fresh process: {ans[1]}")]
+        print("  -> last call:", bad or "no violation")
+        return 1 if bad else 0
+    bad = guarded(lambda: eval_case(case["fn"], case["nodes"], case["nbrs"], case["params"]), 120)
+    if len(case["nodes"]) <= BIG:
+        print("replay:", case["fn"], "nodes", case["nodes"], "nbrs", case["nbrs"], case["params"])
+    else:
+        print("replay:", case["fn"], case["params"], f"on {len(case['nodes'])} nodes", case.get("family", ""), "(oracle: oracles/c15_big.py, linear time)")
     print("  ->", bad or "no violation")
     return 1 if bad else 0
